@@ -354,6 +354,9 @@ func c07Targeted() []string {
 		"vars: {v: {a: 1}}\n**: ${v}",
 		"vars: {m: {p: q}}\nx\n***.a: {...${m}}",
 		"classes: {c: {class: c}}\nx.class: c",
+		"vars: {m: {p: q}; **: ${m}}\nx: ${m}",
+		"vars: {m: {p: q}}\n**.a: ${m}\nl: {...${m}}",
+		"vars: {m: {p: q}}\nvars: {*: {...${m}}}\n",
 		"x; y\nlayers: {l: {z}}\n***.t: @x\nq: a.b.c\nr.s\nu.v.w\n",
 		"classes: {c: {class: d}; d: {class: c}}\na -> b: {class: d}",
 		"x\n*: @lay",
@@ -418,36 +421,39 @@ func c07Len(s string, u16 bool) int {
 // substitution. The first few matching cases per class are still executed and judged
 // normally, only inside a CPU-limited child process; the rest are counted as not executed.
 //
-//   - double-glob-substitution-with-vars: a `**` key (not `***`) whose value holds a
-//     substitution, in a program that declares `vars`. `**` descends into the `vars`
-//     map, so `vars: {v: 1}\n**.a: ${v}` assigns `${v}` to vars.v.a; resolving it
-//     substitutes the (now composite) variable v into its own descendant, without end.
-//   - multi-glob-with-spread-substitution: a `**`/`***` key and a spread substitution
-//     `...${m}`: `vars: {m: {p: q}}\nx\n***.a: {...${m}}` — resolving the spread
+//   (two further classes, `**.a: ${v}` with vars and a class referencing a class, were
+//   repaired in /repo — commits ddb7d26b9, f2a99de7b — and are executed normally again.)
+//   - multi-glob-with-spread-substitution: a `**`/`***` key with a substitution in its
+//     value, in a program with a spread substitution `...${m}` (in that value or in any
+//     map the glob applies to: `vars: {m: {p: q}}\n**.a: ${m}\nl: {...${m}}`): `vars: {m: {p: q}}\nx\n***.a: {...${m}}` — resolving the spread
 //     re-applies the recursive glob, which creates a deeper `a` holding a new spread
 //     placeholder, whose resolution re-applies the glob, and so on.
+//   - glob-inside-vars-with-substitution: see below.
 //   - multi-glob-with-import-value: a `**`/`***` key whose value is an import
 //     (`layers: {l: {z}}\n***.t: @x\nq: a.b.c`): the lazily re-applied glob also matches
 //     the fields its own import created (q.t.k.t.k ...), multiplying with every later
 //     declaration and board; a 60-byte program burns minutes of CPU.
 func c07HangTrigger(text string, files map[string]string) string {
-	// class-referencing-class: a `class:` field inside a `classes` block
-	// (`classes: {c: {class: c}}\nx.class: c`): the graph compiler expands the class of a
-	// class recursively, without end when the reference is cyclic.
-	for _, src := range append([]string{text}, c07SortedValues(files)...) {
+	srcs := append([]string{text}, c07SortedValues(files)...)
+	// glob-inside-vars-with-substitution: a glob key written inside a `vars` map matches
+	// the variables themselves; with a substitution as value a variable is substituted
+	// into itself without end (`vars: {m: {p: q}; **: ${m}}`, `vars: {*: {...${m}}}`).
+	for _, src := range srcs {
 		low := strings.ToLower(src)
 		for off := 0; ; {
-			i := strings.Index(low[off:], "classes")
+			i := strings.Index(low[off:], "vars")
 			if i < 0 {
 				break
 			}
-			i += off
-			off = i + 7
-			j := strings.IndexByte(low[off:], '{')
-			if j < 0 || strings.TrimSpace(strings.Trim(low[off:off+j], ":")) != "" {
+			off += i + 4
+			j := off
+			for j < len(low) && (low[j] == ' ' || low[j] == ':' || low[j] == '\'' || low[j] == '"') {
+				j++
+			}
+			if j >= len(low) || low[j] != '{' {
 				continue
 			}
-			depth, k := 0, off+j
+			depth, k := 0, j
 			for ; k < len(low); k++ {
 				if low[k] == '{' {
 					depth++
@@ -458,17 +464,14 @@ func c07HangTrigger(text string, files map[string]string) string {
 					}
 				}
 			}
-			ext := low[off+j : k]
-			if strings.Contains(ext, "class:") || strings.Contains(ext, "class :") {
-				return "class-referencing-class"
+			if ext := low[j:k]; strings.Contains(ext, "*") && strings.Contains(ext, "${") {
+				return "glob-inside-vars-with-substitution"
 			}
 		}
 	}
-	hasVars := strings.Contains(strings.ToLower(text), "vars")
-	srcs := []string{text}
-	for _, f := range c07SortedValues(files) {
-		srcs = append(srcs, f)
-		hasVars = hasVars || strings.Contains(strings.ToLower(f), "vars")
+	hasSpread := false
+	for _, src := range srcs {
+		hasSpread = hasSpread || strings.Contains(src, "...${")
 	}
 	for _, src := range srcs {
 		if !strings.Contains(src, "${") && !strings.Contains(src, "@") {
@@ -505,10 +508,8 @@ func c07HangTrigger(text string, files map[string]string) string {
 			}
 			ext := src[j:k]
 			switch {
-			case strings.Contains(ext, "...${"):
+			case strings.Contains(ext, "${") && hasSpread:
 				return "multi-glob-with-spread-substitution"
-			case stars == 2 && hasVars && strings.Contains(ext, "${"):
-				return "double-glob-substitution-with-vars"
 			case strings.Contains(ext, "@"):
 				return "multi-glob-with-import-value"
 			}
